@@ -20,6 +20,8 @@ type tableInfo struct {
 	vals  []*big.Int
 	slice bool // []T (false: [N]T)
 	why   string
+	n       int  // number of elements
+	runtime bool // elements are not plain integers: facts are evaluated on the initialised variable
 }
 
 // constTable returns the literal contents of the package-level variable name, or nil with a reason.
@@ -54,7 +56,8 @@ func (e *Engine) constTable1(pi *PkgInfo, name string) (*tableInfo, string) {
 		return nil, fmt.Sprintf("%s is not a slice of integers", name)
 	}
 	if !isInteger(elem) {
-		return nil, fmt.Sprintf("%s is not a slice of integers", name)
+		// slices of structs (with nested slices): facts are evaluated on the initialised variable
+		return e.generalTable(pi, name)
 	}
 	init := pi.SSA.Func("init")
 	if init == nil {
@@ -163,7 +166,7 @@ func (e *Engine) constTable1(pi *PkgInfo, name string) (*tableInfo, string) {
 			return nil, fmt.Sprintf("%s: literal array used by %T", name, ref)
 		}
 	}
-	return &tableInfo{g: g, elem: elem, vals: vals, slice: isSlice}, ""
+	return &tableInfo{g: g, elem: elem, vals: vals, slice: isSlice, n: len(vals)}, ""
 }
 
 // readOnlyUse checks that a value derived from a load of the table is only read.
@@ -259,7 +262,7 @@ func (fx *FuncVC) tableSlice(ti *tableInfo) SliceV {
 
 func (fx *FuncVC) assumeTableHeader(ti *tableInfo) SliceV {
 	v := fx.tableSlice(ti)
-	n := fx.idx(int64(len(ti.vals)))
+	n := fx.idx(int64(ti.n))
 	fx.assumeRaw(And(Lt(IntC(0), v.Base, true), Lt(v.Base, fx.alloc0, true), Eq(v.Off, fx.idx(0)), Eq(v.Len, n), Eq(v.Cap, n)))
 	return v
 }
@@ -272,6 +275,9 @@ func (e *Engine) VerifyTable(pi *PkgInfo, ts *TableSpec) (res *FuncResult) {
 		res.Status = "unsupported"
 		res.Error = "not a constant table: " + why
 		return
+	}
+	if ti.runtime {
+		return e.VerifyRuntimeTable(pi, ts, ti)
 	}
 	spec := &FuncSpec{Name: "table " + ts.Name, File: ts.File, Line: ts.Line, Mode: "int", Loops: map[int]*LoopSpec{}, Options: map[string]string{}}
 	fx := newFx(e, pi, nil, spec)
